@@ -52,6 +52,7 @@ var ctrFields = []string{"points", "bal"}
 var allFields = []string{"name", "age", "score", "flag", "points", "bal"}
 
 type replica struct {
+	gsub     <-chan client.GQLResult
 	n        *vnode.Node
 	col      client.Collection
 	sub      event.Subscription
@@ -91,6 +92,10 @@ type world struct {
 	caseOps  []string
 	failed   bool
 	barrier  int
+	jsonHex  map[string]map[string]string // field -> JSON text of a written value -> its CBOR hex
+	afterLoc map[string]string            // composite label -> ordinary query result right after it was written locally
+	genesis  map[string]string            // doc label -> genesis composite label
+	linear   map[string]bool              // composite label -> its whole history is linear (every ancestor has <= 1 parent)
 }
 
 const barrierName = event.Name("verif-barrier")
@@ -103,7 +108,8 @@ func must(err error) {
 
 func newWorld(ctx context.Context, out *vc.Out, n int, branchable bool, caseID int) *world {
 	w := &world{ctx: ctx, out: out, labels: map[string]string{}, blocks: map[string]*blockInfo{}, docIDs: map[string]string{},
-		docJSON: map[string]string{}, caseID: caseID, branch: branchable}
+		docJSON: map[string]string{}, caseID: caseID, branch: branchable, jsonHex: map[string]map[string]string{},
+		afterLoc: map[string]string{}, linear: map[string]bool{}, genesis: map[string]string{}}
 	sdl := schemaPlain
 	if branchable {
 		sdl = schemaBranchable
@@ -117,7 +123,15 @@ func newWorld(ctx context.Context, out *vc.Out, n int, branchable bool, caseID i
 		must(err)
 		sub, err := nd.DB.Events().Subscribe(event.UpdateName, barrierName)
 		must(err)
-		w.reps = append(w.reps, &replica{n: nd, col: col, sub: sub, merged: map[string]bool{}})
+		rep := &replica{n: nd, col: col, sub: sub, merged: map[string]bool{}}
+		if !branchable {
+			res := nd.DB.ExecRequest(ctx, `subscription { Doc { _docID _deleted name age score flag points bal } }`)
+			if len(res.GQL.Errors) > 0 {
+				panic(fmt.Sprint(res.GQL.Errors))
+			}
+			rep.gsub = res.Subscription
+		}
+		w.reps = append(w.reps, rep)
 		if i == 0 {
 			w.colID = col.Version().CollectionID
 			cs, fs, err := nd.DB.VerifShortIDs(ctx, w.colID)
@@ -196,6 +210,14 @@ func (w *world) register(n *vnode.Node, c cid.Cid, docLabel string) string {
 		bi.kind = "F"
 		bi.field = blk.Delta.GetFieldName()
 		bi.delta = "lww:" + vc.Hex(blk.Delta.GetData())
+		var dv any
+		if err := cbor.Unmarshal(blk.Delta.GetData(), &dv); err == nil {
+			jb, _ := json.Marshal(dv)
+			if w.jsonHex[bi.field] == nil {
+				w.jsonHex[bi.field] = map[string]string{}
+			}
+			w.jsonHex[bi.field][string(jb)] = vc.Hex(blk.Delta.GetData())
+		}
 	}
 	w.blocks[l] = bi
 	for _, h := range blk.Heads {
@@ -362,6 +384,172 @@ func (w *world) gqlDocs(r int) string {
 	return string(b)
 }
 
+// docQuery runs the ordinary (cid == "") or time-travel query for one document and renders it in the
+// canonical `del= vals=` form of `view`.
+func (w *world) docQuery(r int, doc string, cidStr string) string {
+	docID := w.docIDs[doc]
+	args := fmt.Sprintf(`docID: "%s", showDeleted: true`, docID)
+	if cidStr != "" {
+		args = fmt.Sprintf(`cid: "%s", docID: "%s", showDeleted: true`, cidStr, docID)
+	}
+	q := fmt.Sprintf(`query { Doc(%s) { _deleted name age score flag points bal } }`, args)
+	s := w.reps[r].n.GQL(w.ctx, q)
+	if strings.HasPrefix(s, "error:") {
+		e := s
+		if len(e) > 120 {
+			e = e[:120]
+		}
+		return "err:" + strings.ReplaceAll(e, " ", "_")
+	}
+	var m map[string][]map[string]any
+	if err := json.Unmarshal([]byte(s), &m); err != nil {
+		return "err:unmarshal"
+	}
+	if len(m["Doc"]) == 0 {
+		return "none"
+	}
+	if len(m["Doc"]) > 1 {
+		return fmt.Sprintf("err:%d_docs", len(m["Doc"]))
+	}
+	return w.renderDoc(m["Doc"][0])
+}
+
+func (w *world) renderDoc(d map[string]any) string {
+	var sb strings.Builder
+	if d["_deleted"] == true {
+		sb.WriteString("del=1 vals=")
+	} else {
+		sb.WriteString("del=0 vals=")
+	}
+	first := true
+	for _, f := range allFields {
+		v := d[f]
+		if v == nil {
+			continue
+		}
+		if !first {
+			sb.WriteString(",")
+		}
+		first = false
+		jb, _ := json.Marshal(v)
+		if f == "points" || f == "bal" {
+			sb.WriteString(f + ":" + string(jb))
+		} else if hx, ok := w.jsonHex[f][string(jb)]; ok {
+			sb.WriteString(f + ":" + hx)
+		} else {
+			sb.WriteString(f + ":?" + string(jb))
+		}
+	}
+	if first {
+		sb.WriteString("-")
+	}
+	return sb.String()
+}
+
+// at performs the time-travel read of composite l on replica r, emits it for the model and evaluates
+// C03's own oracle on the implementation.
+func (w *world) at(r int, doc string, l string) {
+	b := w.blocks[l]
+	if b == nil || b.kind != "C" {
+		return
+	}
+	got := w.docQuery(r, doc, b.cid.String())
+	w.out.Emit(fmt.Sprintf("at %d %s %s", r, doc, l), got)
+	w.out.Count("op:at")
+	if strings.HasPrefix(got, "err:") {
+		w.out.Oracle(w.out.Lines-1, fmt.Sprintf("[at-error] case %d: time-travel read of %s on replica %d fails: %s", w.caseID, l, r, got))
+		return
+	}
+	// (a) locally written linear history: equals the ordinary query right after that commit
+	if want, ok := w.afterLoc[l]; ok && w.linear[l] && want != got {
+		w.out.Oracle(w.out.Lines-1, fmt.Sprintf("[at-differs-from-then] case %d: %s (linear history) read back as %s but the ordinary query right after writing it returned %s", w.caseID, l, got, want))
+	}
+	// (b) counters: sum of the increments up to that commit, each once
+	cl := map[string]bool{}
+	w.closure(l, cl)
+	sums := map[string]int64{}
+	has := map[string]bool{}
+	seen := map[string]bool{}
+	for c := range cl {
+		cb := w.blocks[c]
+		if cb == nil || cb.kind != "C" {
+			continue
+		}
+		for _, lk := range cb.links {
+			fb := w.blocks[lk]
+			if fb != nil && !seen[lk] && strings.HasPrefix(fb.delta, "ctr:") {
+				seen[lk] = true
+				sums[fb.field] += fb.ctr
+				has[fb.field] = true
+			}
+		}
+	}
+	for _, f := range ctrFields {
+		if !has[f] {
+			continue
+		}
+		want := fmt.Sprintf("%s:%d", f, sums[f])
+		if !strings.Contains(got, want) && got != "none" {
+			w.out.Oracle(w.out.Lines-1, fmt.Sprintf("[at-counter] case %d: counter read at %s gives %q, the increments up to that commit sum to %s", w.caseID, l, got, want))
+		}
+	}
+	// (c) at the current single head: equals the ordinary query
+	hs, err := w.reps[r].n.Heads(w.ctx, w.docIDs[doc], "C")
+	must(err)
+	if len(hs) == 1 && hs[0].Cid.Equals(b.cid) {
+		if cur := w.docQuery(r, doc, ""); cur != got {
+			w.out.Oracle(w.out.Lines-1, fmt.Sprintf("[at-head-differs] case %d: %s is the single head of replica %d; read at it gives %s, the ordinary query gives %s", w.caseID, l, r, got, cur))
+		}
+	}
+	w.out.Nontrivial(fmt.Sprintf("at:%d:%s", w.caseID, l))
+}
+
+// subRead reads what the GraphQL subscription of replica r yielded for the local commit l and compares
+// it with the time-travel read at l (subscriptions evaluate at the commit that triggered them).
+func (w *world) subRead(r int, doc string, l string) {
+	rep := w.reps[r]
+	b := w.blocks[l]
+	if rep.gsub == nil || b == nil {
+		return
+	}
+	wait := 5 * time.Second
+	if b.isDel {
+		wait = 150 * time.Millisecond // a delete yields an empty selection, which is not sent
+	}
+	got := "nothing"
+	select {
+	case res, ok := <-rep.gsub:
+		switch {
+		case !ok:
+			got = "closed"
+		case len(res.Errors) > 0:
+			got = "err:" + strings.ReplaceAll(fmt.Sprint(res.Errors), " ", "_")
+		default:
+			jb, _ := json.Marshal(res.Data)
+			var m map[string][]map[string]any
+			_ = json.Unmarshal(jb, &m)
+			if len(m["Doc"]) == 1 {
+				got = w.renderDoc(m["Doc"][0])
+			} else {
+				got = fmt.Sprintf("docs:%d", len(m["Doc"]))
+			}
+		}
+	case <-time.After(wait):
+	}
+	w.out.Count("op:sub")
+	if b.isDel {
+		if got != "nothing" && got != "docs:0" {
+			w.out.Oracle(w.out.Lines, fmt.Sprintf("[sub-on-delete] case %d: subscription yielded %s for the delete commit %s", w.caseID, got, l))
+		}
+		return
+	}
+	w.out.Emit(fmt.Sprintf("sub %d %s %s", r, doc, l), got)
+	want := w.docQuery(r, doc, b.cid.String())
+	if got != want {
+		w.out.Oracle(w.out.Lines-1, fmt.Sprintf("[sub-differs] case %d: the subscription reported %s for commit %s, the read at that commit gives %s", w.caseID, got, l, want))
+	}
+}
+
 // drain collects the update events published by the last local operation.
 func (w *world) drain(r int) []event.Update {
 	var out []event.Update
@@ -414,6 +602,13 @@ func (w *world) afterLocal(r int, doc string, errStr string) {
 	for _, u := range ups {
 		l := w.register(w.reps[r].n, u.Cid, doc)
 		b := w.blocks[l]
+		if b.kind == "C" && len(b.parents) == 0 {
+			// C04: creating the same initial document on two nodes (no signing) yields the identical genesis commit
+			if g, ok := w.genesis[doc]; ok && g != l {
+				w.out.Oracle(w.out.Lines, fmt.Sprintf("[genesis-differs] case %d: document %s created on two nodes has different genesis commits %s and %s", w.caseID, doc, g, l))
+			}
+			w.genesis[doc] = l
+		}
 		known := false
 		for _, c := range w.commits {
 			if c == l {
@@ -431,6 +626,14 @@ func (w *world) afterLocal(r int, doc string, errStr string) {
 				w.docIDs[doc] = u.DocID
 			}
 			w.out.Emit(fmt.Sprintf("local %d %s %s", r, doc, l), w.view(r, doc))
+			w.afterLoc[l] = w.docQuery(r, doc, "")
+			lin := len(b.parents) <= 1
+			for _, p := range b.parents {
+				lin = lin && w.linear[p]
+			}
+			w.linear[l] = lin
+			w.at(r, doc, l)
+			w.subRead(r, doc, l)
 		}
 	}
 	if len(ups) == 0 {
@@ -675,6 +878,9 @@ func (w *world) deliver(dst int, l string) {
 	}
 	w.out.Emit(fmt.Sprintf("deliver %d %s %s", dst, b.doc, l), cls+" "+w.view(dst, b.doc))
 	w.checkC02(dst, b.doc)
+	if err == nil {
+		w.at(dst, b.doc, l)
+	}
 }
 
 // quiescent: every replica has merged every commit; C01's own oracle.
@@ -723,6 +929,11 @@ func (w *world) quiescent() {
 		got = got[:strings.Index(got, " ")]
 		if got != csv(sortedLabels(want)) {
 			w.out.Oracle(w.out.Lines, fmt.Sprintf("[heads-not-maximal] case %d doc %s: heads %s but the childless merged commits are %s", w.caseID, d, got, csv(sortedLabels(want))))
+		}
+	}
+	for _, l := range w.commits {
+		if b := w.blocks[l]; b != nil && b.kind == "C" {
+			w.at(0, b.doc, l)
 		}
 	}
 	w.out.Emit("quiescent", "ok")
